@@ -86,6 +86,15 @@ class ContractDB:
                         kw = {k.arg: ast.literal_eval(k.value) for k in dec.keywords}
                         self.invariants[(q, kw.get('loop', 1))] = Invariant(q, kw.get('loop', 1), node, path)
 
+    def cases_of(self, c):
+        """list of case dicts from the decorator option cases={'param': [values...]} (cartesian product)"""
+        import itertools
+        cs = c.options.get('cases')
+        if not cs:
+            return [{}]
+        keys = sorted(cs)
+        return [dict(zip(keys, vals)) for vals in itertools.product(*[cs[k] for k in keys])]
+
     def get(self, qualname):
         cs = self.contracts.get(qualname)
         return cs[0] if cs else None
